@@ -624,7 +624,8 @@ class StmtsMixin:
                 m = o.copy()
                 if m.default is not None:
                     # a defaultdict may have gained default entries: materialise declared keys
-                    for k in self.unit.map_keys.get(name, []):
+                    keys = self.unit.map_keys.get(name, [])
+                    for k in (keys() if callable(keys) else keys):
                         if k not in m.items:
                             m.items[k] = m.default(k)
                 m.items = {k: self.havoc_val(x, f"{name}_{i}") for i, (k, x) in enumerate(m.items.items())}
